@@ -246,7 +246,65 @@ fn dec(s: &str) -> Vec<Op> {
     }).collect()
 }
 
+/// height (nodes on the longest root-to-leaf path), measured without recursion: a degenerate tree must not overflow the checker's stack
+fn height(root: &Option<Box<TreapNode<It>>>) -> usize {
+    let mut best = 0;
+    let mut stack: Vec<(&TreapNode<It>, usize)> = Vec::new();
+    if let Some(r) = root { stack.push((r, 1)); }
+    while let Some((n, d)) = stack.pop() {
+        best = best.max(d);
+        if let Some(c) = &n.left { stack.push((c, d + 1)); }
+        if let Some(c) = &n.right { stack.push((c, d + 1)); }
+    }
+    best
+}
+fn height_bound(n: usize) -> usize { (5.0 * ((n + 1) as f64).log2() + 20.0).floor() as usize }
+
+/// C16, height clause (BOUNDED, statistical): grow a treap to `n` elements by an order that degenerates an unbalanced search tree and compare
+/// its height with 5*log2(n+1)+20 at every doubling (so that a chain is noticed at a few hundred nodes, long before the library's
+/// recursive split / merge could exhaust the stack).  family: 0 sorted appends, 1 repeated front insertion, 2 split-and-swap rotations,
+/// 3 appends interleaved with removals of the front, 4 merges of single-node treaps from the left
+fn height_case(family: u64, n: usize) -> Option<(String, String)> {
+    let r = guarded(|| {
+        let mut t: Treap<It> = Treap::new();
+        let mut len = 0usize;
+        let mut next_check = 64usize;
+        let mut k = 0u64;
+        while len < n {
+            k += 1;
+            match family {
+                0 => { t.insert_at(len, It::new(k)); len += 1; }
+                1 => { t.insert_at(0, It::new(k)); len += 1; }
+                2 => {
+                    t.insert_at(len / 2, It::new(k)); len += 1;
+                    if len >= 2 { let (a, b) = std::mem::replace(&mut t, Treap::new()).split_at(1 + (k as usize * 7919) % (len - 1)); t = Treap::merge(b, a); }
+                }
+                3 => {
+                    t.insert_at(len, It::new(k)); t.insert_at(len + 1, It::new(k)); len += 2;
+                    if k % 3 == 0 { t.remove_at(0); len -= 1; }
+                }
+                _ => { t = Treap::merge(Treap::from_item(It::new(k)), std::mem::replace(&mut t, Treap::new())); len += 1; }
+            }
+            if len >= next_check || len >= n {
+                next_check = len * 2;
+                let (h, b) = (height(&t.root), height_bound(len));
+                if h > b { return Some((format!("height {} with {} elements (family {})", h, len, family), format!("at most 5*log2(n+1)+20 = {}", b))); }
+                if t.size() != len { return Some((format!("size() = {} after building {} elements", t.size(), len), format!("{}", len))); }
+            }
+        }
+        None
+    });
+    match r { Ok(x) => x, Err(e) => Some((e, "no panic".into())) }
+}
+
 pub fn run(seed: u64, replay: Option<String>, heap_only: bool) -> Outcome {
+    if let Some(r) = &replay {
+        if let Some(rest) = r.strip_prefix("height;") {
+            let p: Vec<&str> = rest.split(';').collect();
+            let c = height_case(p[0].parse().unwrap_or(0), p.get(1).and_then(|x| x.parse().ok()).unwrap_or(4096));
+            return Outcome { cex: c.map(|(o, e)| Cex { input: r.clone(), observed: o, expected: e }), cases: 1 };
+        }
+    }
     if let Some(r) = replay {
         // node priorities are drawn from a process-wide generator: replay the history repeatedly (other priorities each time)
         let ops = dec(&r);
@@ -255,6 +313,16 @@ pub fn run(seed: u64, replay: Option<String>, heap_only: bool) -> Outcome {
     }
     let mut rng = Lcg(seed ^ 0xc03);
     let mut cases = 0;
+    if heap_only {
+        // height clause: the priorities must be random enough to balance the tree under the orders that degenerate a plain search tree
+        let n = if std::env::var("VERIF_TIER").map(|t| t == "thorough").unwrap_or(false) { 1_000_000 } else { 100_000 };
+        for family in 0..5u64 {
+            cases += 1;
+            if let Some((o, e)) = height_case(family, n) {
+                return Outcome { cex: Some(Cex { input: format!("height;{};{}", family, n), observed: o, expected: e }), cases };
+            }
+        }
+    }
     // deterministic family: build n elements, attach a modification to the root of the whole treap (it stays pending there),
     // then split by every prefix / take first, last, remove, insert while it is pending
     for n in 1..=7usize {
